@@ -13,7 +13,7 @@ from vp.flo.engine import all_events
 
 PROPERTY = "C09"
 LEVEL = "exploration"
-PROFILE = {"aux_share": True, "aux_nest": True, "driver": True, "aux_owner": "taskable", "aux_place": "first", "taskables": (1, 2), "scheds": ["active"],
+PROFILE = {"aux_share": True, "aux_nest": True, "aux_dual": True, "driver": True, "aux_owner": "taskable", "aux_place": "first", "taskables": (1, 2), "scheds": ["active"],
            "let_in_aux": False, "aux_policy": "clean", "aux_modes": ["plain"], "auxes": (2, 3), "frames": (2, 4), "depth": 3,
            "slaves": (0, 1),
            "kinds": {"data": 3, "go": 9, "let": 1, "timeout": 2, "repeat": 2, "aux": 3, "auxif": 0, "bid": 0, "done": 4, "fiat": 1},
